@@ -105,7 +105,8 @@ class Gen:
     def wild_expr(self, vars_, depth=0):
         r = self.r
         if depth >= 2 or r.random() < 0.3:
-            if vars_ and r.random() < 0.5: return r.choice(vars_)
+            nm = [v for v in vars_ if self.types.get(v) != "mod"]
+            if nm and r.random() < 0.5: return r.choice(nm)
             return self.lit()
         a = lambda: self.wild_expr(vars_, depth + 1)
         k = r.randrange(5)
@@ -216,7 +217,7 @@ class Gen:
         if k == 19 and self.modules:
             self.count("import")
             m = r.choice(self.modules)
-            v = self.fresh("m"); vars_.append(v)
+            v = self.fresh("m"); vars_.append(v); self.types[v] = "mod"
             return ["%s := import(\"%s\")" % (v, m)]
         self.count("log")
         return ["out = append(out, %s)" % self.expr(vars_)]
@@ -228,5 +229,16 @@ class Gen:
         vars_, funcs = [], []
         for _ in range(nstmts or self.r.randrange(2, 7)):
             lines += self.stmt(vars_, funcs, 0, False, False)
-        lines.append("return [out, %s]" % (self.r.choice(vars_) if vars_ else "0"))
+        rv = [v for v in vars_ if self.types.get(v) != "mod"]
+        lines.append("return [out, %s]" % (self.r.choice(rv) if rv else "0"))
         return "\n".join(lines) + "\n"
+
+    def program_stmts(self, nstmts=None):
+        """top-level statements as separate chunks (for cutting into Eval fragments) and the declared names"""
+        self.uid = 0
+        self.types = {}
+        chunks = [["out := []"]]
+        vars_, funcs = [], []
+        for _ in range(nstmts or self.r.randrange(3, 9)):
+            chunks.append(self.stmt(vars_, funcs, 0, False, False))
+        return ["\n".join(c) for c in chunks], list(vars_), [f[0] for f in funcs]
